@@ -440,8 +440,17 @@ func checkUnreadByte(c *core.Ctx, p *load.Prog) {
 			ast.Inspect(fd.Body, func(n ast.Node) bool {
 				if as, is := n.(*ast.AssignStmt); is && len(as.Lhs) == 2 && len(as.Rhs) == 1 {
 					if call, isC := as.Rhs[0].(*ast.CallExpr); isC {
-						if cal := load.Callee(info, call); cal != nil && cal.Name() == "findFirst" {
-							if id, isId := as.Lhs[1].(*ast.Ident); isId {
+						// the scanner: findFirst, or whatever package function hands
+						// back the token read and whether there was one
+						if cal := load.Callee(info, call); cal != nil && cal.Pkg() == pkg.Types {
+							isScanner := cal.Name() == "findFirst"
+							if sig, okS := cal.Type().(*types.Signature); okS && sig.Results().Len() == 2 {
+								b, isB := sig.Results().At(1).Type().Underlying().(*types.Basic)
+								if isB && b.Kind() == types.Bool && strings.HasSuffix(sig.Results().At(0).Type().String(), ".token") {
+									isScanner = true
+								}
+							}
+							if id, isId := as.Lhs[1].(*ast.Ident); isId && isScanner && found == nil {
 								found = info.ObjectOf(id)
 							}
 						}
@@ -485,6 +494,10 @@ func checkUnreadByte(c *core.Ctx, p *load.Prog) {
 				}
 				return true
 			})
+			if found == nil {
+				c.Undecide("tokenReader.%s: no call that returns the token read and whether there was one (findFirst) is bound to variables: the guard before unreadByte() is not recognised", name)
+				continue
+			}
 			// the guard must precede the unreadByte call
 			c.Check("R3", "unreadByte() in tokenReader."+name+" is skipped when findFirst failed on a reader error", pos, okGuard,
 				"when findFirst returns !ok because the reader failed (not EOF), Next falls through to unreadByte(), which panics if no byte was ever read and otherwise unreads a byte that belongs to the previous token")
